@@ -166,10 +166,14 @@ def masked_stores(fn_node, L: Locals) -> list:
                 if nm == "where" and len(c.args) == 3 and isinstance(c.args[2], ast.Name) and c.args[2].id in same:
                     out.append((s, t.id, L.expand(c.args[0], same), c.args[1]))
                 elif nm == "nan_to_num" and c.args and isinstance(c.args[0], ast.Name) and c.args[0].id in same:
-                    for k in c.keywords:
-                        if k.arg == "nan":
-                            out.append((s, t.id, ast.Call(func=ast.Attribute(value=ast.Name(id="np", ctx=ast.Load()), attr="isnan", ctx=ast.Load()),
-                                                          args=[c.args[0]], keywords=[]), k.value))
+                    # replaces NaN by `nan=` — and, unless told otherwise, +inf / -inf by the largest finite values: the mask is isnan(X) only
+                    # when posinf= / neginf= hand the infinities back
+                    kws = {k.arg: k.value for k in c.keywords if k.arg}
+                    if "nan" in kws:
+                        keeps_inf = is_inf(L.expand(kws.get("posinf")), +1) and is_inf(L.expand(kws.get("neginf")), -1)
+                        fn_name = "isnan" if keeps_inf else "c08_isnan_or_isinf"
+                        out.append((s, t.id, ast.Call(func=ast.Attribute(value=ast.Name(id="np", ctx=ast.Load()), attr=fn_name, ctx=ast.Load()),
+                                                      args=[c.args[0]], keywords=[]), kws["nan"]))
         elif isinstance(s, ast.Expr) and isinstance(s.value, ast.Call):
             c = s.value
             nm = call_name(c)
@@ -189,6 +193,47 @@ def is_isnan_of(mask, names: set) -> bool:
     if isinstance(mask, ast.Compare) and len(mask.ops) == 1 and isinstance(mask.ops[0], ast.NotEq):
         a, b = mask.left, mask.comparators[0]
         return isinstance(a, ast.Name) and isinstance(b, ast.Name) and a.id == b.id and a.id in names
+    return False
+
+
+def is_inf(expr, sign) -> bool:
+    """np.inf / math.inf / float('inf') with the given sign (+1 / -1)."""
+    if expr is None:
+        return False
+    if isinstance(expr, ast.UnaryOp) and isinstance(expr.op, (ast.USub, ast.UAdd)):
+        return is_inf(expr.operand, -sign if isinstance(expr.op, ast.USub) else sign)
+    if isinstance(expr, ast.Attribute) and isinstance(expr.value, ast.Name):
+        if expr.attr in ("inf", "Inf", "infty", "PINF"):
+            return sign > 0
+        if expr.attr == "NINF":
+            return sign < 0
+    if isinstance(expr, ast.Call) and getattr(expr.func, "id", None) == "float" and len(expr.args) == 1 and isinstance(expr.args[0], ast.Constant):
+        txt = str(expr.args[0].value).lower().strip()
+        if txt in ("inf", "+inf", "infinity", "+infinity"):
+            return sign > 0
+        if txt in ("-inf", "-infinity"):
+            return sign < 0
+    return False
+
+
+def covers_more_than_nan(mask, names: set) -> bool:
+    """The mask selects the NaNs of X (called one of `names`) and other elements too: nan_to_num with default posinf / neginf, `~isfinite(X)`,
+    `isnan(X) | <anything>`."""
+    def arr(e):
+        return isinstance(e, ast.Name) and e.id in names
+
+    if isinstance(mask, ast.Call) and call_name(mask) == "c08_isnan_or_isinf" and mask.args and arr(mask.args[0]):
+        return True
+    if isinstance(mask, ast.UnaryOp) and isinstance(mask.op, (ast.Invert, ast.Not)) and isinstance(mask.operand, ast.Call) \
+            and call_name(mask.operand) == "isfinite" and mask.operand.args and arr(mask.operand.args[0]):
+        return True
+    if isinstance(mask, ast.Call) and call_name(mask) == "logical_not" and mask.args and isinstance(mask.args[0], ast.Call) \
+            and call_name(mask.args[0]) == "isfinite" and mask.args[0].args and arr(mask.args[0].args[0]):
+        return True
+    if isinstance(mask, ast.BinOp) and isinstance(mask.op, ast.BitOr):
+        return any(is_isnan_of(x, names) or covers_more_than_nan(x, names) for x in (mask.left, mask.right))
+    if isinstance(mask, ast.Call) and call_name(mask) == "logical_or":
+        return any(is_isnan_of(x, names) or covers_more_than_nan(x, names) for x in mask.args)
     return False
 
 
